@@ -89,10 +89,18 @@ func decodeAuthorization(v string) ([]credTok, bool) {
 	return []credTok{t}, true
 }
 
-// meantFor: pure equality test between the origin inside the credential and the receiving origin.
+// meantFor: pure equality test between the origin inside the credential and the receiving origin, both
+// normalised as RFC 3986 6.2.2/6.2.3 and net/url do (scheme and host case-insensitive, "no port" = the default
+// port of the scheme; see normHost for the trailing dot).
 func (t credTok) meantFor(scheme, host, port string) bool {
-	eq := func(a, b string) bool { return a == "*" || a == b }
-	return eq(t.Scheme, scheme) && eq(t.Host, host) && eq(t.Port, port)
+	scheme = strings.ToLower(scheme)
+	np := func(p string) string {
+		if p == "default" || p == "" {
+			return defaultPort(scheme)
+		}
+		return p
+	}
+	return (t.Scheme == "*" || strings.ToLower(t.Scheme) == scheme) && (t.Host == "*" || normHost(t.Host) == normHost(host)) && (t.Port == "*" || np(t.Port) == np(port))
 }
 
 // ---- git-credential-verifc10 (credential helper program) ----
